@@ -2346,12 +2346,12 @@ static ASMJIT_FAVOR_SIZE CpuHints recalculate_hints(const CpuInfo& cpu_info, con
 // =======================
 
 const CpuInfo& CpuInfo::host() noexcept {
-  static std::atomic<uint32_t> cpu_info_initialized_flag;
+  // 0 = not initialized, 1 = one thread is publishing `cpu_info_global`, 2 = initialized.
+  static std::atomic<uint32_t> cpu_info_state;
   static CpuInfo cpu_info_global(Globals::NoInit);
 
-  // This should never cause a problem as the resulting information should always
-  // be the same. In the worst case it would just be overwritten non-atomically.
-  if (!cpu_info_initialized_flag.load(std::memory_order_relaxed)) {
+  if (ASMJIT_UNLIKELY(cpu_info_state.load(std::memory_order_acquire) != 2u)) {
+    // The detection can run concurrently as it only touches a local - every thread detects the same information.
     CpuInfo cpu_info_local;
 
     cpu_info_local._arch = Arch::kHost;
@@ -2365,8 +2365,18 @@ const CpuInfo& CpuInfo::host() noexcept {
     cpu_info_local._hw_thread_count = detect_hw_thread_count();
     cpu_info_local.update_hints();
 
-    cpu_info_global = cpu_info_local;
-    cpu_info_initialized_flag.store(1, std::memory_order_seq_cst);
+    // Only a single thread is allowed to write the global, the others wait until it has been published (the
+    // publishing thread only copies the structure, so the wait is very short).
+    uint32_t expected = 0u;
+    if (cpu_info_state.compare_exchange_strong(expected, 1u, std::memory_order_acquire)) {
+      cpu_info_global = cpu_info_local;
+      cpu_info_state.store(2u, std::memory_order_release);
+    }
+    else {
+      while (cpu_info_state.load(std::memory_order_acquire) != 2u) {
+        continue;
+      }
+    }
   }
 
   return cpu_info_global;
